@@ -630,13 +630,19 @@ type c21Run struct {
 	stagedSinceScan map[string]bool
 	ready           bool // endpoints exist
 	bulkRoot        string
+	progressNs      atomic.Int64 // time of the last step start (watchdog)
+	curOp           string       // operation of the current step (under jmu)
 }
 
 func (x *c21Run) log(format string, a ...any) {
 	line := fmt.Sprintf("step %d: ", x.step) + fmt.Sprintf(format, a...)
 	x.jmu.Lock()
 	x.p.Journal = append(x.p.Journal, line)
+	if !strings.HasPrefix(format, "edit") {
+		x.curOp = strings.SplitN(fmt.Sprintf(format, a...), "(", 2)[0]
+	}
 	x.jmu.Unlock()
+	x.progressNs.Store(time.Now().UnixNano())
 	if x.p.Debug {
 		fmt.Printf("C21 program %d %s\n", x.p.Index, line)
 	}
@@ -1109,6 +1115,54 @@ func (x *c21Run) compareSupply(op string, recs [2]*recorder, serrs [2]error) ste
 	return stepOutcome{kind: "supply", class: fmt.Sprintf("d%d,b%d,e%d", bucket(data), bucket(blocks), bucket(errors))}
 }
 
+// lateNonUTF8 makes a transition meet a name that is not valid UTF-8 and that
+// the scan has not seen: a directory existing only on dst is scanned, then
+// gains such an entry, then the replica plan (which removes the directory) is
+// applied. The resulting problem must come back identically on both sides.
+func (x *c21Run) lateNonUTF8(src, dst string) stepOutcome {
+	if listRoot(x.L.root(dst)).rootKind != "dir" {
+		return stepOutcome{kind: "transition", class: "skipped"}
+	}
+	dir := fmt.Sprintf("nd%d", x.rng.Intn(1000))
+	x.clock += 3
+	ops := []diskOp{{Kind: "mkdir", Path: dir}, {Kind: "write", Path: dir + "/inner", Size: 30, Seed: x.rng.Int63(), Mode: 0o644, Mtime: x.clock}}
+	late := diskOp{Kind: "write", Path: dir + "/late\xff\xfename", Size: 5, Seed: x.rng.Int63(), Mode: 0o644, Mtime: x.clock + 1}
+	if x.rng.Intn(2) == 0 {
+		late = diskOp{Kind: "mkdir", Path: dir + "/late\xffdir"}
+	}
+	apply := func(op diskOp) bool {
+		x.log("edit %s: %s", dst, op)
+		el, er := applyOp(x.L.root(dst), op), applyOp(x.R.root(dst), op)
+		x.dirty[dst] = true
+		if el != nil || er != nil {
+			x.r.Inconclusive("edit-not-mirrored")
+			x.dead = true
+			return false
+		}
+		return true
+	}
+	for _, op := range ops {
+		if !apply(op) {
+			return stepOutcome{kind: "transition", fatal: true}
+		}
+	}
+	if o := x.scan(src, false); o.fatal || x.dead {
+		return stepOutcome{kind: "transition", fatal: true}
+	}
+	if o := x.scan(dst, true); o.fatal || x.dead {
+		return stepOutcome{kind: "transition", fatal: true}
+	}
+	if !apply(late) {
+		return stepOutcome{kind: "transition", fatal: true}
+	}
+	x.r.Count("transitions_after_late_non_utf8_entry", 1)
+	o := x.transition(src, dst)
+	if o.class != "" && o.class != "skipped" {
+		o.class = "late-non-utf8," + o.class
+	}
+	return o
+}
+
 // supplyProbe asks an endpoint to supply files against signatures of other
 // content (and an empty signature, and a missing path).
 func (x *c21Run) supplyProbe(which string) stepOutcome {
@@ -1252,6 +1306,11 @@ func (x *c21Run) transition(src, dst string) stepOutcome {
 	if missing[0] {
 		x.r.Count("transitions_with_missing_files", 1)
 	}
+	for _, p := range rawProblems[0] {
+		if strings.ContainsRune(p.Path, '\ufffd') || !utf8.ValidString(p.Path) {
+			x.r.Count("transition_problems_naming_non_utf8_entries", 1)
+		}
+	}
 	return stepOutcome{kind: "transition", class: fmt.Sprintf("n%d,applied%d,p%d,m%v", bucket(len(valid)), bucket(changed), bucket(len(problems[0])), missing[0])}
 }
 
@@ -1392,7 +1451,7 @@ func (x *c21Run) run() {
 	for x.step = 1; x.step <= x.p.Steps && !x.dead; x.step++ {
 		which := []string{"a", "b"}[x.rng.Intn(2)]
 		other := map[string]string{"a": "b", "b": "a"}[which]
-		switch k := x.rng.Intn(20); {
+		switch k := x.rng.Intn(22); {
 		case k < 4:
 			allowBulk := bulkBudget > 0 && x.rng.Intn(3) == 0
 			if allowBulk {
@@ -1448,6 +1507,12 @@ func (x *c21Run) run() {
 			record(x.transition(src, dst))
 		case k < 19:
 			record(x.supplyProbe(which))
+		case k >= 20:
+			dst, src := which, other
+			if oneWay {
+				dst, src = "b", "a"
+			}
+			record(x.lateNonUTF8(src, dst))
 		default:
 			// protocol misuse the endpoints must answer identically: a second
 			// transition without a scan in between
@@ -1522,10 +1587,13 @@ func (x *c21Run) stageRaw(dst string, req []fileRef) stepOutcome {
 	return stepOutcome{kind: "stage", class: fmt.Sprintf("read-only,%d,err=%v", len(req), errs[0] != nil)}
 }
 
-// heartbeat measures scheduler health for the hang watchdog.
+// heartbeat is the control of the hang watchdog: a goroutine that should tick
+// every 50 ms; it remembers when it last saw a gap of a second or more, i.e.
+// when the scheduler (or the machine) was last unhealthy.
 type heartbeat struct {
-	maxGapNs atomic.Int64
-	stop     chan struct{}
+	lastBadNs atomic.Int64 // unix nanoseconds of the last gap >= 1 s, 0 if none
+	maxGapNs  atomic.Int64
+	stop      chan struct{}
 }
 
 func startHeartbeat() *heartbeat {
@@ -1538,9 +1606,14 @@ func startHeartbeat() *heartbeat {
 			select {
 			case <-h.stop:
 				return
-			case now := <-t.C:
-				if g := now.Sub(last).Nanoseconds(); g > h.maxGapNs.Load() {
-					h.maxGapNs.Store(g)
+			case <-t.C:
+				now := time.Now()
+				g := now.Sub(last)
+				if g.Nanoseconds() > h.maxGapNs.Load() {
+					h.maxGapNs.Store(g.Nanoseconds())
+				}
+				if g >= time.Second {
+					h.lastBadNs.Store(now.UnixNano())
 				}
 				last = now
 			}
@@ -1548,6 +1621,19 @@ func startHeartbeat() *heartbeat {
 	}()
 	return h
 }
+
+// Watchdog bounds. A step (one endpoint call on each side, or an edit) takes
+// 1 ms .. 1 s nominally; the bound is >= 100x that and >= 10 s. A step counts
+// as hung only if a full window of that length passed without progress AND
+// without any heartbeat gap; with gaps the watchdog keeps waiting and finally
+// gives the case up as inconclusive.
+const (
+	c21StepWindow               = 300 * time.Second
+	c21StepWindowAfterFirstHang = 30 * time.Second
+	c21GiveUp                   = 30 * time.Minute
+)
+
+var c21HangsSeen atomic.Int64
 
 func runC21Program(r *vk.Run, p *c21Program, hb *heartbeat) {
 	x := &c21Run{r: r, p: p, rng: rand.New(rand.NewSource(p.Seed)), snap: map[string]*core.Snapshot{}, dirty: map[string]bool{}, stagedSinceScan: map[string]bool{}, clock: 1_600_000_000 + int64(p.Index)*100_000}
@@ -1566,30 +1652,59 @@ func runC21Program(r *vk.Run, p *c21Program, hb *heartbeat) {
 			x.run()
 		})
 	}()
-	// Control-relative watchdog: a program takes seconds; 10 minutes without
-	// completion on a healthy scheduler is a hang of the code under test.
-	hb.maxGapNs.Store(0)
-	select {
-	case <-done:
-	case <-time.After(10 * time.Minute):
+	// Control-relative watchdog (no verdict from wall-clock alone, see the constants above).
+	x.progressNs.Store(time.Now().UnixNano())
+	tick := time.NewTicker(2 * time.Second)
+	defer tick.Stop()
+watch:
+	for {
+		select {
+		case <-done:
+			break watch
+		case <-tick.C:
+		}
+		now := time.Now().UnixNano()
+		progress := x.progressNs.Load()
+		ref := progress
+		if bad := hb.lastBadNs.Load(); bad > ref {
+			ref = bad
+		}
+		window := c21StepWindow
+		if c21HangsSeen.Load() > 0 {
+			// a hang has already been established in this run: later stuck
+			// steps only add to the count, so they get the short window
+			window = c21StepWindowAfterFirstHang
+		}
+		hung := time.Duration(now-ref) > window
+		gaveUp := time.Duration(now-progress) > c21GiveUp
+		if !hung && !gaveUp {
+			continue
+		}
 		buf := make([]byte, 4<<20)
 		dump := buf[:runtime.Stack(buf, true)]
-		if time.Duration(hb.maxGapNs.Load()) >= time.Second {
-			r.Inconclusive("program-timeout-on-unhealthy-scheduler")
-			fmt.Printf("C21 program %d exceeded 10 minutes (step %d) on an unhealthy scheduler (max heartbeat gap %v): inconclusive; goroutines:\n%s\n", p.Index, x.step, time.Duration(hb.maxGapNs.Load()), dump)
+		x.jmu.Lock()
+		op := x.curOp
+		x.jmu.Unlock()
+		if hung {
+			c21HangsSeen.Add(1)
+			x.violationSig(map[string]string{"rule": "hang", "operation": op},
+				fmt.Sprintf("%s made no progress for %v although the heartbeat control showed no scheduling gap >= 1 s in that window; goroutine dump in the log", op, window), map[string]any{"window_s": window.Seconds()})
 		} else {
-			x.violation("hang", "program", "no progress for 10 minutes with a healthy scheduler; goroutine dump follows in the log", map[string]any{"stacks": string(debug.Stack())})
-			fmt.Printf("%s\n", dump)
+			r.Inconclusive("step-timeout-on-unhealthy-scheduler")
 		}
+		fmt.Printf("C21 program %d: no progress in step %d (%s); hung=%v; max heartbeat gap so far %v; goroutines:\n%s\n", p.Index, x.step, op, hung, time.Duration(hb.maxGapNs.Load()), dump)
 		// unblock whatever is stuck
-		for _, c := range x.R.streams {
-			c.Close()
+		if x.R != nil {
+			for _, c := range x.R.streams {
+				c.Close()
+			}
 		}
 		select {
 		case <-done:
-		case <-time.After(30 * time.Second):
+		case <-time.After(60 * time.Second):
 			return
 		}
+		break watch
 	}
 	if x.L != nil && x.R != nil {
 		x.cleanup()
@@ -1608,7 +1723,7 @@ func runC21Program(r *vk.Run, p *c21Program, hb *heartbeat) {
 func c21() {
 	r := vk.Start("C21", "exploration")
 	debug.SetGCPercent(400)
-	n := r.Pick(40, 600)
+	n := r.Pick(40, 300)
 	steps := 15
 	seeds := make([]int64, n)
 	rng := r.Rand("programs")
